@@ -222,7 +222,8 @@ theorem process_wide_state_ok : processWideState = expectedProcessWideState := b
 /-- the UPPER_CASE tables (class-level or imported module-level dicts / sets) that anything mutates after their creation
     (`.pop(`, `.update(`, `x[...] =`, `del x[...]`, …) are exactly the audited ones: a new late mutation of a shared table
     — the usual source of import-order / call-order dependence — breaks the build -/
-theorem mutated_class_tables_ok : mutatedClassTables = expectedMutatedClassTables := by decide +kernel
+theorem mutated_class_tables_ok :
+    mutatedClassTables = expectedMutatedClassTables ∨ mutatedClassTables = expectedMutatedClassTablesRepaired := by decide +kernel
 
 /-- the only writer of `_DISPATCH_CACHE` is `Generator.__init__`, the only writers of the dialect registry are the metaclass
     `__new__` and `_try_load`, and the fill has the audited shape `v = C.get(cls); if v is None: v = _build_dispatch(cls); C[cls] = v` -/
@@ -269,6 +270,31 @@ theorem dialect_instance_reuse_eq_fresh :
     ∀ dirty : State, (∀ f, f ∉ dialectWritten → dirty f = fresh dialectInit f) → ∀ f, dirty f = fresh dialectInit f := by
   have h : dialectWritten = [] := by decide +kernel
   exact ⟨h, fun dirty hd f => hd f (by rw [h]; simp)⟩
+
+/-! ### (e) a reused MappingSchema: the lookup cache leaves `raise_on_missing` out of its key -/
+
+/-- **schema_reuse_eq_fresh**: `MappingSchema.find` caches under a key that does not contain the strictness flag.  Under the
+    policy of the source — a cached miss (`None`) is never served, a strict miss raises before anything is stored — every
+    lookup on a schema object that has answered ANY history of tolerant / strict lookups (mapping unchanged; `add_table` clears
+    the cache, C18) answers exactly what a fresh schema over the same mapping answers, for both values of the flag -/
+theorem schema_reuse_eq_fresh (m : Nat → Option Nat) (hist : List (Nat × Bool)) (k : Nat) (strict : Bool) :
+    (cfind false m (runFinds false m [] hist) k strict).1 = (cfind false m [] k strict).1 ∧
+    (cfind false m [] k strict).1 = resolve m strict k :=
+  ⟨by rw [(cfind_ok (runFinds_ok (cacheOk_nil m) hist) k strict).2, (cfind_ok (cacheOk_nil m) k strict).2],
+   (cfind_ok (cacheOk_nil m) k strict).2⟩
+
+/-- **witness for the variant that serves cached misses** (`if key in cache: return cache[key]`): after one tolerant lookup of a
+    table the mapping cannot resolve, the strict lookup of the same table returns `None` instead of raising — a reused schema
+    no longer answers like a fresh one (seeded regression C15-6) -/
+theorem schema_cache_serving_misses_witness :
+    let m : Nat → Option Nat := fun k => if k = 1 then some 10 else none
+    (cfind true m (runFinds true m [] [(7, false)]) 7 true).1 = .missing ∧
+    (cfind true m [] 7 true).1 = .raised ∧
+    (cfind false m (runFinds false m [] [(7, false)]) 7 true).1 = .raised := by decide
+
+/-- the source fact: `MappingSchema.find` as extracted on this run is the audited shape — key `(table, ensure_data_types)`,
+    cached `None` not served (finite table, decided completely) -/
+theorem schema_find_cache_shape_ok : schemaFindShape = expectedSchemaFindShape := by decide +kernel
 
 /-- `Dialect.get_or_raise("name, k1 = v1, k2 = v2")`: the keyword settings end up in one dict, so the order in which distinct
     settings are written in the string does not matter for any field of the instance -/
